@@ -67,17 +67,20 @@ package route
 //@ ghost var sdSwapped bool
 //@ ghost var sdDeadline bool
 //@ ghost var sdHooks bool
+// sdCtx: the context WithTimeout returned (the one that carries the exit wait time)
+//@ ghost var sdCtx int
 //@ func Engine.Shutdown(engine, ctx) err
 //@   props C18
 //@   abstract
 //@   noinline
-//@   modifies sdSwapped, sdDeadline, sdHooks
+//@   modifies sdSwapped, sdDeadline, sdHooks, sdCtx
 //@   ghostset-at-entry sdSwapped = false
 //@   ghostset-at-entry sdDeadline = false
 //@   ghostset-at-entry sdHooks = false
 //@   ghostset after CompareAndSwapUint32: sdSwapped = result
 //@   ghostset after WithTimeout: sdDeadline = true
+//@   ghostset after WithTimeout: sdCtx = result0
 //@   ghostset after go: sdHooks = true
 //@   assert before go: sdSwapped && sdDeadline
 //@   assert before Deregister: sdSwapped && sdDeadline && sdHooks
-//@   assert before Shutdown: sdSwapped && sdDeadline && sdHooks
+//@   assert before Shutdown: sdSwapped && sdDeadline && sdHooks && arg1 == sdCtx
